@@ -533,7 +533,7 @@ fn expected_probes(check: &str) -> Vec<&'static str> {
         "C03" => vec!["crash_point_inside_merge", "crash_point_inside_multi_write_entry", "crash_point_inside_recovery_open", "image_with_empty_data_file", "concurrent_crash_workload"],
         "C09" => vec!["power_image_lost_unsynced_bytes", "power_image_torn_tail", "hint_durable_beyond_data", "crash_point_inside_merge", "concurrent_crash_workload"],
         "C04" => vec!["mutex_contended", "backoff_spin", "rwlock_shared_contended", "rwlock_exclusive_contended"],
-        "C06" => vec!["real_client_exchange"],
+        "C06" => vec!["real_client_exchange", "request_cut_then_earlier_replies_awaited"],
         "C08" => vec!["real_writer_over_stream", "stalled_inside_a_frame", "stream_cut_inside_a_frame"],
         "C10" => vec!["hostile_connection_closed_by_server", "task_panic_contained"],
         "C11" => vec!["two_commands_in_store_simultaneously", "select_entered"],
@@ -541,7 +541,7 @@ fn expected_probes(check: &str) -> Vec<&'static str> {
         "C15" => vec!["handler_panic_injected", "store_error_injected", "limit_reached", "task_panic_contained"],
         "C16" => vec!["request_unanswered_at_shutdown", "select_entered"],
         "C17" => vec!["stale_handle_rejected", "reopen_at_once", "reopen_while_old_worker_alive", "drop_while_worker_in_blocking_call", "drop_while_worker_sleeping", "client_op_rejected_as_closed"],
-        "C18" => vec!["trigger_by_dead_bytes_only_just_crossed", "trigger_by_fragmentation_only_just_crossed", "dead_bytes_exactly_at_trigger", "fragmentation_exactly_at_trigger", "policy_never", "interval_sync", "jitter_extreme", "sync_under_writers_compared", "sync_tick_waited_for_writer_or_disk"],
+        "C18" => vec!["trigger_by_dead_bytes_only_just_crossed", "trigger_by_fragmentation_only_just_crossed", "dead_bytes_exactly_at_trigger", "fragmentation_exactly_at_trigger", "policy_never", "interval_sync", "jitter_extreme", "sync_obligations_checked", "sync_tick_waited_for_writer_or_disk"],
         "C19" => vec!["reopen", "merge_selected_all_nonempty", "accounting_compared_after_concurrent_history"],
         "C20" => vec!["fault_during_merge", "fault_during_multi_write_entry", "fault_during_open", "fault_in_background_task", "fault_reported_as_error"],
         _ => vec![],
